@@ -324,6 +324,9 @@ class Backend:
                "bytes": len(json.dumps(Updates, default=str)), "outcome": "ok", "tick_applied": None,
                "ids": [u.get("Id") for u in Updates], "client_token": kw.get("ClientToken")}
         self.calls.append(rec)
+        lat = d.cfg.get("api_latency") or 0.0
+        if lat and d.running:
+            d.ex.sleep(lat)                 # the request is in flight: other threads run meanwhile
         d.site("before-call", rec)          # crash / fault / black-hole choices
         self.refresh()
         d.site("deliver-during", rec)       # an outstanding external may complete now
@@ -341,6 +344,18 @@ class Backend:
             if marker:
                 state["NextMarker"] = marker
         rec["returned_ids"] = [r["Id"] for r in rows]
+        bad = rec.get("bad_response")
+        if bad == "none":
+            return None
+        if bad and rows:
+            if bad == "status":
+                state["Operations"][0]["Status"] = "NOT_A_STATUS"
+            elif bad == "noid":
+                state["Operations"][0].pop("Id", None)
+            elif bad == "type":
+                state["Operations"][0]["Type"] = "NOT_A_TYPE"
+        elif bad:
+            state["Operations"] = [{"Type": "STEP", "Status": "NOT_A_STATUS"}]
         return {"CheckpointToken": tok, "NewExecutionState": state,
                 "ResponseMetadata": {"HTTPStatusCode": 200}}
 
